@@ -37,6 +37,46 @@ def hexs(b):
     return b.hex() if b else "-"
 
 
+def max_sacked_from_source():
+    """DEFAULT_MAX_SACKED_INTERVALS as written in the source (the third limit of StreamFollower::process_packet is a
+    compile-time constant; the harness answers every `case` line with the compiled value and the oracle compares)"""
+    import os, re
+    try:
+        src = open(os.path.join(core.REPO, "src", "tcp_ip", "stream_follower.cpp")).read()
+    except OSError:
+        return None
+    m = re.search(r"DEFAULT_MAX_SACKED_INTERVALS\s*=\s*(\d+)\s*;", src)
+    return int(m.group(1)) if m else None
+
+
+MAXS = 1024
+
+
+class Recv:
+    """what the receiver of one direction holds: merged half-open runs of stream offsets"""
+    def __init__(self):
+        self.runs = []
+
+    def add(self, a, b):
+        if b <= a:
+            return
+        out, placed = [], False
+        for (x, y) in self.runs:
+            if y < a or b < x:
+                out.append((x, y))
+            else:
+                a, b = min(a, x), max(b, y)
+        out.append((a, b))
+        self.runs = sorted(out)
+
+    def frontier(self):
+        return self.runs[0][1] if self.runs and self.runs[0][0] <= 0 else 0
+
+    def above(self):
+        k = self.frontier()
+        return [(x, y) for (x, y) in self.runs if x > k]
+
+
 def pad_v4(h):
     return h + "0" * 24
 
@@ -52,6 +92,47 @@ class Conn:
             d = rng.choice("cs")
             self.isn[d] = (M32 - 1 - rng.randint(0, len(self.data[d]))) % M32
         self.pkts = []
+        self.rcv = {"c": Recv(), "s": Recv()}
+        self.ackmode = "receiver" if rng.random() < 0.7 else "max"
+        self.rng = rng
+
+    def sack_opts(self, d, ackoff):
+        """SACK option of a packet sent in direction d (acknowledging the other direction's stream)"""
+        rng = self.rng
+        o = "s" if d == "c" else "c"
+        base = self.isn[o] + 1
+        r = rng.random()
+        if r < 0.45:
+            return ""
+        if r < 0.80 and self.ackmode == "receiver":
+            runs = self.rcv[o].above()
+            if not runs:
+                return ""
+            rng.shuffle(runs)
+            runs = runs[:rng.randint(1, 4)]
+            return "sk=" + ",".join(f"{(base + x) % M32},{(base + y) % M32}" for (x, y) in runs)
+        if r < 0.90:                                          # plausible blocks above the ACK, not tied to the data
+            edges, pos = [], ackoff + rng.randint(1, 4)
+            for _ in range(rng.randint(1, 3)):
+                ln = rng.randint(1, 6)
+                edges += [(base + pos) % M32, (base + pos + ln) % M32]
+                pos += ln + rng.randint(1, 5)
+            return "sk=" + ",".join(map(str, edges))
+        if r < 0.94:                                          # not what a receiver emits: at / below the ACK, empty, reversed, far
+            v = rng.randrange(5)
+            a = (base + ackoff) % M32
+            if v == 0: return f"sk={(a - 3) % M32},{(a + 2) % M32}"
+            if v == 1: return f"sk={a},{(a + 5) % M32}"
+            if v == 2: return f"sk={(a + 9) % M32},{(a + 4) % M32}"
+            if v == 3: return f"sk={(a + 2 ** 31 - 2) % M32},{(a + 2 ** 31 + 3) % M32}"
+            return f"sk={(a + 4) % M32},{(a + 4) % M32}"
+        if r < 0.96:
+            return "sk=-"                                    # a SACK option without edges
+        if r < 0.98:                                          # an odd number of edges
+            a = (base + ackoff) % M32
+            return f"sk={(a + 2) % M32},{(a + 4) % M32},{(a + 8) % M32}"
+        n = rng.choice([1, 2, 3, 5, 6, 7, 9, 13])            # malformed: not a whole number of 32-bit edges
+        return "skraw=" + bytes(rng.randrange(256) for _ in range(n)).hex()
 
     def key(self):
         return (self.fam,) + tuple(sorted([(self.ca, self.cp), (self.sa, self.sp)]))
@@ -73,6 +154,15 @@ class Conn:
         a = 0 if ackoff is None else (self.isn[o] + 1 + ackoff) % M32
         src, sp, dst, dp = self.ends(d)
         pl = "none" if payload is None else hexs(payload)
+        if payload is not None and seq is None and off >= -1:
+            self.rcv[d].add(max(off, 0) if not (flags & SYN) else 0, (off if not (flags & SYN) else 0) + len(payload))
+        if ackoff is not None and (flags & ACK) and not (flags & RST):
+            if self.ackmode == "receiver" and not (flags & (SYN | FIN)):
+                ackoff = self.rcv[o].frontier()
+                a = (self.isn[o] + 1 + ackoff) % M32
+            so = self.sack_opts(d, ackoff)
+            if so:
+                opts = (opts + " " + so).strip()
         self.pkts.append(f"{self.fam} {src} {sp} {dst} {dp} {flags} {s} {a} {pl}" + (" " + opts if opts else ""))
 
 
@@ -199,7 +289,9 @@ def gen_case(rng, collide=False, big=False, defaults=False):
     ka = rng.choice([300000000, 300000000, 300000000, 1000, 50000, 50000, 1 if rng.random() < 0.3 else 7])
     cfg = dict(attach=int(rng.random() < 0.45), maxc=rng.choice([512, 512, 512, 512, 2, 3, 5, 8, 0 if rng.random() < 0.3 else 4]),
                maxb=rng.choice([3145728, 3145728, 3145728, 3145728, 10, 40, 100, 0 if rng.random() < 0.3 else 25]),
-               ka=ka, acl=int(rng.random() < 0.8), ooo=int(rng.random() < 0.5))
+               ka=ka, acl=int(rng.random() < 0.8), ooo=int(rng.random() < 0.5),
+               ack=rng.choice([0, 0, 1, 2, 3, 3, 3]), usesack=int(rng.random() < 0.4),
+               ign=rng.choice([0, 0, 0, 0, 0, 0, 1, 2, 3]), maxs=MAXS)
     if defaults:
         cfg.update(maxc=512, maxb=3145728)
     ops = ["case " + " ".join(f"{k}={v}" for k, v in cfg.items())]
@@ -256,7 +348,7 @@ def gen_case(rng, collide=False, big=False, defaults=False):
 
 def default_limit_case(rng, which):
     """cross the default limits (512 chunks / 3 MiB) with a flood of out-of-order segments"""
-    ops = [f"case attach={rng.randrange(2)} maxc=512 maxb=3145728 ka=300000000 acl=1 ooo=0"]
+    ops = [f"case attach={rng.randrange(2)} maxc=512 maxb=3145728 ka=300000000 acl=1 ooo=0 ack={rng.randrange(4)} maxs={MAXS}"]
     fam = rng.choice(["v4", "v6"])
     h = V4_HOSTS if fam == "v4" else V6_HOSTS
     a, b = h[0], h[1]
@@ -276,6 +368,88 @@ def default_limit_case(rng, which):
             t += 1
             src, sp, dst, dp, s0 = (a, 1000, b, 80, isn) if i % 2 else (b, 80, a, 1000, 77)
             ops.append(f"pkt {t} {fam} {src} {sp} {dst} {dp} {ACK} {(s0 + 1 + 10 + i * size) % M32} 78 {hexs(bytes([i]) * size)}")
+    ops.append(f"find {fam} {a} 1000 {b} 80")
+    return ops
+
+
+def sack_limit_case(rng, variant):
+    """cross the SACKed-interval limit (a compile-time constant: MAXS + 1 disjoint blocks are needed, four per segment).
+    variants: client  - all blocks reported by the client, only its flow is tracked
+              both    - the two flows together cross the limit, each alone stays below it
+              exact   - stop at exactly MAXS intervals, cover some by a cumulative ACK, then cross
+              untracked - the crossing direction is not tracked: nothing may happen
+              buffers - the crossing segment also exceeds the chunk limit: the reason must be BUFFERED_DATA
+              attach  - a connection attached mid-stream (trackers default-constructed; SACK only after use_sack)"""
+    fam = rng.choice(["v4", "v6"])
+    h = V4_HOSTS if fam == "v4" else V6_HOSTS
+    a, b = h[0], h[1]
+    ic, isv = rng.choice(BOUNDARY_ISNS + [rng.randrange(M32)]), rng.choice(BOUNDARY_ISNS + [rng.randrange(M32)])
+    ack = {"client": 1, "both": 3, "exact": rng.choice([1, 3]), "untracked": 2, "buffers": 3, "attach": 3}[variant]
+    maxc = 0 if variant == "buffers" else 512
+    usesack = 1 if variant == "attach" else rng.randrange(2)
+    attach = 1 if variant == "attach" else rng.randrange(2)
+    ops = [f"case attach={attach} maxc={maxc} maxb=3145728 ka=300000000 acl=1 ooo=0 ack={ack} usesack={usesack} ign=0 maxs={MAXS}"]
+    t = 5
+    cs = f"{fam} {a} 1000 {b} 80"; sc = f"{fam} {b} 80 {a} 1000"
+    if variant == "attach":
+        # default-constructed trackers start at ACK number 0: keep everything just above 0
+        ic, isv = 10, 20
+        ops.append(f"pkt {t} {cs} {ACK} 11 21 aa")
+    else:
+        ops.append(f"pkt {t} {cs} {SYN} {ic} 0 none")
+        ops.append(f"pkt {t} {sc} {SYN | ACK} {isv} {(ic + 1) % M32} none")
+        ops.append(f"pkt {t} {cs} {ACK} {(ic + 1) % M32} {(isv + 1) % M32} none")
+        ops.append(f"pkt {t} {sc} {ACK} {(isv + 1) % M32} {(ic + 1) % M32} none")
+    # position of block i above the acknowledged point of a direction: 3 sequence numbers apart, 1 or 2 long
+    def blocks(base, first, n):
+        return ",".join(f"{(base + 2 + 3 * i) % M32},{(base + 2 + 3 * i + rng.randint(1, 2)) % M32}" for i in range(first, first + n))
+    need = MAXS + 1
+    sent = {"c": 0, "s": 0}
+    def send(d, n, extra=""):
+        nonlocal t
+        t += 1
+        base = (isv + 1) if d == "c" else (ic + 1)        # the client acknowledges the server's stream
+        line, seq, ackn = (cs, (ic + 1) % M32, (isv + 1) % M32) if d == "c" else (sc, (isv + 1) % M32, (ic + 1) % M32)
+        if variant == "attach":
+            seq = (seq + 1) % M32 if d == "c" else seq
+        ops.append(f"pkt {t} {line} {ACK} {seq} {ackn} none sk={blocks(base, sent[d], n)}" + extra)
+        sent[d] += n
+    if variant in ("client", "untracked", "buffers", "attach"):
+        d = "c"
+        while sent[d] + 4 < need:
+            send(d, 4)
+        if variant == "buffers":
+            # the crossing segment carries an out-of-order payload: one buffered chunk > maxc = 0
+            t += 1
+            ops.append(f"pkt {t} {cs} {ACK} {(ic + 1 + 50) % M32} {(isv + 1) % M32} bb sk={blocks(isv + 1, sent[d], need - sent[d])}")
+        else:
+            while sent[d] < need:
+                send(d, 1)
+        send(d, 2)                                           # after the termination: not tracked any more (or untracked direction)
+    elif variant == "both":
+        half = need // 2
+        for d in "cs":
+            while sent[d] + 4 <= half - 1:
+                send(d, 4)
+        while sent["c"] + sent["s"] < need:
+            send(rng.choice("cs"), 1)
+        send("c", 1)
+    else:                                                    # exact
+        d = "c"
+        while sent[d] + 4 <= MAXS:
+            send(d, 4)
+        while sent[d] < MAXS:
+            send(d, 1)
+        ops.append(f"find {fam} {a} 1000 {b} 80")
+        # a cumulative ACK covering the first 10 blocks erases them; a block bridging two neighbours merges them
+        t += 1
+        ops.append(f"pkt {t} {cs} {ACK} {(ic + 1) % M32} {(isv + 1 + 2 + 3 * 10) % M32} none")
+        t += 1
+        ops.append(f"pkt {t} {cs} {ACK} {(ic + 1) % M32} {(isv + 1 + 2 + 3 * 10) % M32} none sk={(isv + 1 + 2 + 3 * 20) % M32},{(isv + 1 + 2 + 3 * 23 + 1) % M32}")
+        ops.append(f"find {fam} {a} 1000 {b} 80")
+        n0 = sent[d]
+        for _ in range(16):
+            send(d, 1)
     ops.append(f"find {fam} {a} 1000 {b} 80")
     return ops
 
@@ -316,7 +490,7 @@ def exhaustive_interleavings(limit, rng):
             for pos in itertools.combinations(range(6), 3):
                 for attach in (0, 1):
                     for gaps in ("short", "long"):
-                        ops = [f"case attach={attach} maxc=512 maxb=3145728 ka=1000 acl=1 ooo=1"]
+                        ops = [f"case attach={attach} maxc=512 maxb=3145728 ka=1000 acl=1 ooo=1 ack=3 maxs={MAXS}"]
                         ops += decls(A, 4294967294, 7, b"\x01\x02\x03", b"\x0a\x0b") + decls(B, 100, 4294967295, b"\x21\x22", b"\x31")
                         ia = ib = 0; t = 10
                         for i in range(6):
@@ -339,11 +513,13 @@ def classify(op, impl):
         return w[0] + (":none" if impl.endswith(" none") else ":found") if w[0] == "find" else w[0]
     tags = []
     ev = impl.split(" | ")[0]
-    for name in ("new", "cdata", "sdata", "cooo", "sooo", "closed", "TIMEOUT", "BUFFERED_DATA"):
+    for name in ("new", "cdata", "sdata", "cooo", "sooo", "closed", "TIMEOUT", "BUFFERED_DATA", "SACKED_SEGMENTS", "exc"):
         if (name + " ") in ev:
             tags.append(name)
     if "partial=1" in ev and "new " in ev:
         tags.append("attach")
+    if " civn=" in impl and (" civn=0 " not in impl or " sivn=0 " not in impl):
+        tags.append("sacked")
     return "pkt:" + w[2] + ":" + ("+".join(tags) if tags else ("untracked" if impl.endswith("| none") else "quiet"))
 
 
@@ -385,6 +561,13 @@ def run(chk):
         return
     rng = random.Random(chk.seed)
     quick = chk.tier == "quick"
+    global MAXS
+    m = max_sacked_from_source()
+    if m is None:
+        chk.violation("DEFAULT_MAX_SACKED_INTERVALS not found in src/tcp_ip/stream_follower.cpp (the limit constant the "
+                      "model takes as a parameter)", ["limit-constant-not-found"], nofail=True)
+    else:
+        MAXS = m
     stats = {}
     total = lambda: sum(v.get("spec", 0) + v.get("fault", 0) for v in stats.values())
 
@@ -414,6 +597,13 @@ def run(chk):
     for i in range(4 if quick else 60):
         ops += gen_case(rng, defaults=True)
     batch("defaults", ops)
+    # 2b. the SACKed-interval limit (a compile-time constant: floods of MAXS + 1 disjoint SACK blocks)
+    ops = []
+    variants = ["client", "both", "exact", "untracked", "buffers", "attach"]
+    if MAXS <= 20000:
+        for v in (variants if quick else variants * 4):
+            ops += sack_limit_case(rng, v)
+    batch("sacklimit", ops)
     # 3. cross-family workload: IPv4 connections and the IPv6 connections a.b.c.d:: with the same ports
     ops = []
     for i in range(150 if quick else 1500):
